@@ -19,7 +19,8 @@ namespace pure {
     __attribute__((noinline, cold)) inline void bit_mismatch( Acc& A, const char* fn, uint64_t in, uint64_t got, uint64_t exp, const char* extra = "" )
     {
         ++A.mismatches;
-        report( "C25", std::string( "value:" ) + fn,
+        if ( !report_wanted( "C25", std::string( "value:" ) + fn )) return;
+        violation( "C25", std::string( "value:" ) + fn,
                 std::string( fn ) + "(" + hxs( in ) + extra + ") returned " + hxs( got ) + ", the definition gives " + hxs( exp ),
                 "{\"function\":" + jstr( fn ) + ",\"input\":" + hx( in ) + ",\"expected\":" + hx( exp ) + ",\"actual\":" + hx( got ) + ",\"note\":" + jstr( extra ) + "}" );
     }
@@ -288,10 +289,10 @@ namespace pure {
         PropStats& ps = prop( "C25" );
         Args& a = args();
         unsigned const T = worker_count();
-        uint64_t const total = a.n( 1000000, 100000000 );
+        uint64_t const total = budget( 1000000, 100000000 );
         std::vector<uint64_t> st = structured64();
         std::vector<Acc> acc( T );
-        std::vector<std::set<uint32_t>> classes( T );
+        std::vector<std::vector<uint8_t>> classes( T, std::vector<uint8_t>( 65 * 65 * 65, 0 ));   // (msb, lsb, popcount) classes seen
         double t0 = wall_now();
         parallel( T, [&]( unsigned t ) {
             Acc& A = acc[t];
@@ -302,13 +303,13 @@ namespace pure {
                 uint64_t x = random64( g );
                 if (( i & 0xfff ) == 0 ) selfcheck_refs( x );
                 check64( x, A );
-                classes[t].insert(( uint32_t( ref_msb64( x )) << 16 ) | ( uint32_t( ref_lsb64( x )) << 8 ) | uint32_t( ref_pop64( x )));
+                classes[t][( unsigned( ref_msb64( x )) * 65 + unsigned( ref_lsb64( x ))) * 65 + unsigned( ref_pop64( x ))] = 1;
             }
         } );
         Acc S;
         for ( Acc& x : acc ) { S.compared += x.compared; S.inputs += x.inputs; S.mismatches += x.mismatches; }
         std::set<uint32_t> all;
-        for ( auto& c : classes ) all.insert( c.begin(), c.end());
+        for ( uint32_t c = 0; c < 65 * 65 * 65; ++c ) for ( auto& v : classes ) if ( v[c] ) { all.insert( c ); break; }
         for ( uint32_t c : all ) ps.add_fp( mix64(( uint64_t( 0x6401 ) << 32 ) | c ));
         { std::set<uint64_t> ds( st.begin(), st.end()); for ( uint64_t x : ds ) ps.add_fp( mix64( x ) ^ 0x6402 ); ps.add_extra( "inputs64_structured_distinct", ds.size()); }
         ps.evaluations.fetch_add( S.compared );
